@@ -4,7 +4,9 @@ import argparse
 import json
 import os
 import sys
+import threading
 import time
+from concurrent.futures import ThreadPoolExecutor
 
 sys.path.insert(0, os.path.dirname(os.path.abspath(__file__)))
 import common
@@ -13,11 +15,12 @@ from common import MachineryError, Scratch, Verdict
 
 PID = "C13"
 INVARIANTS = ["StoreMatchesLru", "SizeBound", "NeverShare", "ReturnedOwn", "RaiseNotCached", "InstanceGone",
-              "NoTtlBoundary", "OneRecomputation", "HitRunsNothing", "EvictsLeastRecent"]
+              "NoTtlBoundary", "OneRecomputation", "HitRunsNothing", "EvictsLeastRecent", "OtherFunctionUntouched"]
 # (group, extra TLC environment): the big spelling group is split so that no TLC output has to be held at once
 PARTS = {
-    "quick": [("spell", {}), ("lru", {}), ("inst", {}), ("lazy", {}), ("overlap", {})],
-    "thorough": [("spell", {"FORM": "fn"}), ("spell", {"FORM": "meth"}), ("lru", {}), ("inst", {}), ("lazy", {}), ("overlap", {})],
+    "quick": [("misc", {}), ("inst", {}), ("lru", {}), ("spell", {})],        # misc = lazy + overlap + shared + falsy
+    "thorough": [("spell", {"FORM": "fn"}), ("spell", {"FORM": "meth"}), ("lru", {}), ("inst", {}), ("lazy", {}), ("overlap", {}),
+                 ("shared", {}), ("falsy", {})],
 }
 DECO = {"lru": "alru_cache", "inst": "acached_per_instance", "lazy": "alazy_constant"}
 CLAUSE = {"hit": "hit", "new": "miss", "raise": "raise", "evicted": "lru", "dropped": "instance", "drop": "instance",
@@ -26,10 +29,16 @@ CLAUSE = {"hit": "hit", "new": "miss", "raise": "raise", "evicted": "lru", "drop
 
 def trigger(cfg):
     if cfg["deco"] == "lru":
-        return "alru_cache/%s/%s" % ("function" if cfg["form"] == "fn" else "method", "key_fn" if cfg["keyfn"] else "default_key")
-    if cfg["deco"] == "lazy":
-        return "alazy_constant/%s" % ("ttl" if cfg["ttl"] else "no_ttl")
-    return "acached_per_instance"
+        t = "alru_cache/%s/%s" % ("function" if cfg["form"] == "fn" else "method", "key_fn" if cfg["keyfn"] else "default_key")
+    elif cfg["deco"] == "lazy":
+        t = "alazy_constant/%s" % ("ttl" if cfg["ttl"] else "no_ttl")
+    else:
+        t = "acached_per_instance"
+    if cfg.get("nf", 1) == 2:
+        t += "/one-decorator-two-functions"
+    if cfg.get("ret", "tuple") != "tuple":
+        t += "/returns-" + cfg["ret"]
+    return t
 
 
 def classify(case, m):
@@ -43,9 +52,9 @@ def classify(case, m):
             tag = o["tag"][q]
             if have and have[0] == "val" and tag != "hit" and o["calls"]:
                 s = o["calls"][q]
-                keep = [0, 1, 3] if case["cfg"]["keyfn"] else [0, 1, 2, 3]     # key_fn ignores b
-                own = [s["i"], s["a"], s["b"], s["c"]]
-                if len(have) >= 5 and [have[1 + x] for x in keep] != [own[x] for x in keep]:
+                keep = [0, 1, 2, 4] if case["cfg"]["keyfn"] else [0, 1, 2, 3, 4]     # key_fn ignores b
+                own = [s.get("g", 1), s["i"], s["a"], s["b"], s["c"]]
+                if len(have) >= 6 and [have[1 + x] for x in keep] != [own[x] for x in keep]:
                     return "C13.differ"       # served a value computed from other arguments
             return "C13." + CLAUSE.get(tag, tag)
     return "C13." + CLAUSE.get(o["tag"][0], o["tag"][0])        # only the number of body runs differs
@@ -79,41 +88,57 @@ def main():
             if mism:
                 print("VIOLATION property=%s replay=%s" % (PID, a.replay))
             return 1 if mism else 0
-        states = trans = total = nmis = nhist = nontriv = 0
         alarms, samples, per_group, configs = [], [], {}, set()
         tag_count = {}
         found = []
-        for group, extra in PARTS[tier]:
+        lock = threading.Lock()
+        st = {"states": 0, "trans": 0, "total": 0, "nmis": 0, "nhist": 0, "nontriv": 0}
+        par = 3 if tier == "quick" else 2          # groups in flight (TLC + parsing + replay overlap)
+
+        def do_part(part):
+            group, extra = part
             env = {"GROUP": group, "DEEP": "1" if tier == "thorough" else "0"}
             env.update(extra)
-            hs, res = sat.tlc_histories("Cache", "Cache.cfg", sc, env=env)
+            hs, res = sat.tlc_histories("Cache", "Cache.cfg", sc, env=env, workers=max(2, common.NCPU // par))
             alarm = sat.model_alarm(res)
-            if alarm:
-                alarms.append("%s (group %s): %s" % (alarm, group, res.out[-1500:]))
             cases = [{"cfg": h["cfg"], "h": h["h"]} for h in hs if "h" in h]
             del hs
             if not cases:
                 raise MachineryError("TLC exported no histories for group %s:\n%s" % (group, res.out[-2000:]))
-            states += res.distinct
-            trans += res.generated
-            nhist += len(cases)
-            per_group[group] = per_group.get(group, 0) + len(cases)
-            nontriv += sum(1 for c in cases if nontrivial(c))
+            tags, cfgs = {}, set()
             for c in cases:
-                configs.add(json.dumps(c["cfg"], sort_keys=True))
+                cfgs.add(json.dumps(c["cfg"], sort_keys=True))
                 for o in c["h"]:
                     for t in o["tag"]:
-                        tag_count[t] = tag_count.get(t, 0) + 1
-            samples += [cases[len(cases) // 3]]
+                        tags[t] = tags.get(t, 0) + 1
+            nt = sum(1 for c in cases if nontrivial(c))
+            mine, tot = [], 0
             for bname, bdir in builds.items():
-                mism, n = sat.replay(bdir, "replay_c13.py", cases)
-                total += n
-                nmis += len(mism)
+                mism, n = sat.replay(bdir, "replay_c13.py", cases, nproc=max(2, common.NCPU // 2))
+                tot += n
                 for m in mism:
                     c = cases[m["i"]]
-                    found.append((classify(c, m), trigger(c["cfg"]),
-                                  {"history": c, "got": m["got"], "first_diff": m["diff"][0], "build": bname}))
-            del cases
+                    mine.append((classify(c, m), trigger(c["cfg"]),
+                                 {"history": c, "got": m["got"], "first_diff": m["diff"][0], "build": bname}))
+            with lock:
+                if alarm:
+                    alarms.append("%s (group %s): %s" % (alarm, group, res.out[-1500:]))
+                st["states"] += res.distinct
+                st["trans"] += res.generated
+                st["nhist"] += len(cases)
+                st["nontriv"] += nt
+                st["total"] += tot
+                st["nmis"] += len(mine)
+                per_group[group] = per_group.get(group, 0) + len(cases)
+                configs.update(cfgs)
+                for t, n in tags.items():
+                    tag_count[t] = tag_count.get(t, 0) + n
+                samples.append(cases[len(cases) // 3])
+                found.extend(mine)
+
+        with ThreadPoolExecutor(max_workers=par) as ex:
+            list(ex.map(do_part, PARTS[tier]))
+        states, trans, total, nmis, nhist, nontriv = (st[k] for k in ("states", "trans", "total", "nmis", "nhist", "nontriv"))
         firsts, rest, seen = [], [], set()
         for f in found:              # one example of every distinct (clause, trigger) first: those are the lines printed
             (rest if (f[0], f[1]) in seen else firsts).append(f)
@@ -132,6 +157,7 @@ def main():
             "configurations": len(configs), "operations_by_prescription": tag_count, "builds": list(builds),
             "model_invariants": INVARIANTS, "model_ok": not alarms, "mismatching_histories": nmis,
             "evaluations": total, "distinct_nontrivial": nontriv,
+            "functions_per_decorator_object": [1, 2], "result_kinds": ["tuple", "none", "zero", "str", "empty"],
             "rule": "every call history to the group's depth over the group's call alphabet (all spellings x 2 values per parameter: "
                     "depth %s; LRU/instance/ttl histories over few keys: depth %s); non-trivial = contains a hit and a miss/eviction/drop/dirty/expiry/raise"
                     % (("3 (default key; 2 with key_fn)", "3-7") if tier == "thorough" else ("2", "2-6")),
